@@ -12,6 +12,7 @@ Schema validity is supporting evidence only (library validator on every captured
 """
 from __future__ import annotations
 
+import os
 import threading
 from decimal import Decimal
 
@@ -828,6 +829,71 @@ def sequence_restart_scenario(ctx):
             p.stop()
 
 
+def observer_interference_scenario(ctx):
+    """An application observes the provider's `*_by_handle` observables and writes into what it receives (it gets copies, so
+    that is its right). The reports of that commit must still carry the committed values: what is on the wire equals what
+    is in the tables."""
+    from sdc11073 import observableproperties as properties
+    for path in c02.MDIBS[:1 if ctx.tier == 'quick' else 2]:
+        p = lb.Provider(mdib_path=path, start=False, role_providers=False)
+        try:
+            m = p.mdib
+            w = tx.World(p, ctx.subrng('observer'))
+            parser = Parser(m)
+            touched = []
+
+            def scribble(d):
+                for obj in list((d or {}).values()):
+                    touched.append(type(obj).__name__)
+                    try:
+                        if getattr(obj, 'is_state_container', False) or hasattr(obj, 'StateVersion'):
+                            w.mutate_state(obj, 900 + len(touched))
+                        else:
+                            w.mutate_descr(obj, 900 + len(touched))
+                        tx.deep_scribble(obj)
+                    except Exception:  # noqa: BLE001
+                        pass
+            names = ['alert_by_handle', 'component_by_handle', 'context_by_handle', 'metrics_by_handle', 'operation_by_handle',
+                     'waveform_by_handle', 'new_descriptors_by_handle', 'updated_descriptors_by_handle', 'deleted_descriptors_by_handle']
+            properties.bind(m, **{n: scribble for n in names})
+            problems = []
+            for kind in ('metric', 'alert', 'component', 'operational', 'rt'):
+                hs = w.states_of_kind(kind)
+                if not hs:
+                    continue
+                p.take_wire()
+                with getattr(m, {'rt': 'rt_sample_state_transaction'}.get(kind, f'{kind}_state_transaction'))() as mgr:
+                    w.mutate_state(mgr.get_state(hs[0]), 7)
+                for msg in p.take_wire():
+                    rep = parser.parse(msg)
+                    for part in rep['parts']:
+                        for st in part['states']:
+                            tab = m.states.descriptor_handle.get_one(st.DescriptorHandle, allow_none=True)
+                            if tab is not None and w.show_s(st) != w.show_s(tab):
+                                problems.append(f'{msg.short}: state {st.DescriptorHandle} on the wire differs from the committed one')
+            p.take_wire()
+            with m.context_state_transaction() as mgr:
+                w.mutate_state(mgr.mk_context_state('PC.mds0', 'obs_patient', set_associated=True), 5)
+            for msg in p.take_wire():
+                rep = parser.parse(msg)
+                for part in rep['parts']:
+                    for st in part['states']:
+                        tab = m.context_states.handle.get_one(st.Handle, allow_none=True)
+                        if tab is not None and w.show_c(st) != w.show_c(tab):
+                            problems.append(f'{msg.short}: context state {st.Handle} on the wire differs from the committed one')
+            tx.undo_empty_appends()
+            w.close()
+            case = {'observer_interference': os.path.basename(path), 'objects_the_observers_wrote_into': len(touched)}
+            if problems:
+                ctx.fail('reported-state-differs-from-committed', '; '.join(problems[:3]) + ' (an observer of *_by_handle wrote into its copy)', case)
+            if not touched:
+                ctx.fail('observer-scenario-not-exercised', 'no *_by_handle observable fired', case)
+            ctx.case(case, nontrivial=True)
+            ctx.count('observer-interference-runs')
+        finally:
+            p.stop()
+
+
 def filter_forms_scenario(ctx):
     """The wse:Filter of a Subscribe is an xs:list of action URIs: any white space separates them. A real consumer subscribes
     over HTTP with its filter written with newlines / tabs / several blanks; after that every report kind of committed
@@ -1042,6 +1108,7 @@ def run(ctx):
     filter_forms_scenario(ctx)
     transient_failure_scenario(ctx)
     sequence_restart_scenario(ctx)
+    observer_interference_scenario(ctx)
 
 
 def search(ctx):
@@ -1059,6 +1126,8 @@ def replay(ctx, obj):
         wire_validity_scenario(ctx2)
     elif 'peer_failure' in case:
         peer_failure_isolation(ctx2, case['sync'])
+    elif 'observer_interference' in case:
+        observer_interference_scenario(ctx2)
     elif 'two_writers' in case:
         two_writer_order(ctx2, case['sync'], case['two_writers'])
     elif 'sequence_restart' in case:
